@@ -41,9 +41,9 @@ def _worker(idx):
     try:
         H.NESTED_ARITY["value"] = 3 if _TIER == "thorough" else 2
         fam = spec.run(_PROG, _TIER)
-        if fam.error is None:
+        if fam.obls:
             discharge_all(fam, _SEED)
-            if _TIER == "thorough":
+            if _TIER == "thorough" and fam.error is None:
                 second_opinion(fam)
         recs = []
         for o in fam.obls:
